@@ -479,6 +479,9 @@ func (g *gen) node(depth int, k kind, force bool) *Node {
 			n = &Node{K: "not", A: g.node(d, kAny, false)}
 		case r < 98:
 			n = &Node{K: "fn", Op: g.pick(funcNames, "fn"), A: g.node(d, kAny, false)}
+			if g.n(0, 5, "fnblank") == 0 {
+				n.Sp = "blank" // "abs (x)": a blank between the name and its group
+			}
 		default:
 			n = &Node{K: "imul", A: g.literal(kAny), B: g.node(d, kAny, false)}
 			if g.n(0, 2, "imulpow") == 0 {
@@ -1172,7 +1175,7 @@ func TestReferenceSelf(t *testing.T) {
 		{"1 + 2(3)", clWF, 7}, {"2(3) * 4", clWF, 24}, {"x^2(3)", clWF, 48}, {"1 + 2^3(y) - 1", clWF, -24}, {"2^3(4) / 2", clWF, 16}, {"sqrt(16)^2", clWF, 16}, {"-abs(y)", clWF, -3},
 		{"-2^2", clUnspec, 0}, {"2^-1^2", clUnspec, 0}, {"6/2(1+2)", clUnspec, 0}, {"6*2(1+2)", clUnspec, 0}, {"-2(3)", clUnspec, 0}, {"2^-3(4)", clUnspec, 0}, {"1 << 2(3)", clUnspec, 0}, {"2(3)^2", clUnspec, 0}, {"1 + 2 << 3", clUnspec, 0}, {"1 & 2 | 3", clUnspec, 0},
 		{"--2", clUnspec, 0}, {"+2", clUnspec, 0}, {"2 3", clUnspec, 0}, {"(1)2", clUnspec, 0}, {"x(2)", clUnspec, 0}, {"010", clUnspec, 0}, {"1e5", clUnspec, 0},
-		{"2 $ 3", clUnspec, 0}, {"a = b", clUnspec, 0}, {"!x + 1", clUnspec, 0}, {"- x", clUnspec, 0}, {"abs (2)", clUnspec, 0}, {"2*-3", clUnspec, 0}, {"inf", clUnspec, 0}, {"0x1bc", clUnspec, 0},
+		{"2 $ 3", clUnspec, 0}, {"a = b", clUnspec, 0}, {"!x + 1", clUnspec, 0}, {"- x", clUnspec, 0}, {"abs (2)", clWF, 2}, {"10 - abs (2 - 5)", clWF, 7}, {"(sqrt (16))", clWF, 4}, {"2*-3", clUnspec, 0}, {"inf", clUnspec, 0}, {"0x1bc", clUnspec, 0},
 		{"", clMalformed, 0}, {"-", clMalformed, 0}, {"2 * -", clMalformed, 0}, {"()", clMalformed, 0}, {"(2", clMalformed, 0}, {"2)", clMalformed, 0}, {"2 *", clMalformed, 0}, {"* 2", clMalformed, 0}, {"2 * / 3", clMalformed, 0}, {"abs()", clMalformed, 0}, {"1 + (2 *) + 3", clMalformed, 0},
 	} {
 		cls, tree, why := classify(c.text)
